@@ -371,6 +371,10 @@ func unmarshalTargets() []struct {
 		{"*field.Track2", func() interface{} { return &field.Track2{} }},
 		{"reflect(int)", func() interface{} { return reflect.ValueOf(&struct{ A int }{}).Elem().Field(0) }},
 		{"reflect(int64)", func() interface{} { return reflect.ValueOf(&struct{ A int64 }{}).Elem().Field(0) }},
+		{"reflect(int8)", func() interface{} { return reflect.ValueOf(&struct{ A int8 }{}).Elem().Field(0) }},
+		{"reflect(int16)", func() interface{} { return reflect.ValueOf(&struct{ A int16 }{}).Elem().Field(0) }},
+		{"reflect(int32)", func() interface{} { return reflect.ValueOf(&struct{ A int32 }{}).Elem().Field(0) }},
+		{"reflect(uint64)", func() interface{} { return reflect.ValueOf(&struct{ A uint64 }{}).Elem().Field(0) }},
 		{"reflect(string)", func() interface{} { return reflect.ValueOf(&struct{ A string }{}).Elem().Field(0) }},
 		{"reflect([]byte)", func() interface{} { return reflect.ValueOf(&struct{ A []byte }{}).Elem().Field(0) }},
 		{"reflect(float)", func() interface{} { return reflect.ValueOf(&struct{ A float64 }{}).Elem().Field(0) }},
